@@ -458,7 +458,162 @@ pub fn eval_prec(c: &PrecCase) -> (Vec<Violation>, u64, String) {
     (vs, runs, outcome)
 }
 
+// ------------------------------------------------------------------------------------------
+// Part C: `init` on the real binary - writes the settings, then generates with them
+// ------------------------------------------------------------------------------------------
+
+#[derive(Debug, Clone, Serialize, Deserialize)]
+pub struct InitCase {
+    /// -p: None (default ./src-tauri) | "alt" | "missing"
+    pub project: Option<String>,
+    /// -g given?
+    pub generated: bool,
+    /// -v: None | "zod" | "none" | "yup"
+    pub validation: Option<String>,
+    /// -o: "default" (none given) | "custom-new" | "custom-existing" | "custom-existing-force" | "explicit-tauri"
+    pub out: String,
+    pub visualize: bool,
+}
+
+fn init_args(c: &InitCase) -> Vec<String> {
+    let mut a: Vec<String> = vec!["tauri-typegen".into(), "init".into()];
+    if let Some(p) = &c.project {
+        a.extend(["-p".to_string(), project_path_of(p).to_string()]);
+    }
+    if c.generated {
+        a.extend(["-g".to_string(), "./out-init".to_string()]);
+    }
+    if let Some(v) = &c.validation {
+        a.extend(["-v".to_string(), v.clone()]);
+    }
+    match c.out.as_str() {
+        "custom-new" => a.extend(["-o".to_string(), "conf/new.json".to_string()]),
+        "custom-existing" => a.extend(["-o".to_string(), "custom.json".to_string()]),
+        "custom-existing-force" => a.extend(["-o".to_string(), "custom.json".to_string(), "--force".to_string()]),
+        "explicit-tauri" => a.extend(["-o".to_string(), "./alt-proj/tauri.conf.json".to_string()]),
+        _ => {}
+    }
+    if c.visualize {
+        a.push("--visualize-deps".into());
+    }
+    a
+}
+
+pub fn eval_init(c: &InitCase) -> (Vec<Violation>, String) {
+    let sb = Sandbox::new();
+    let w = sb.path("outer/w");
+    for d in ["src-tauri", "alt-proj"] {
+        std::fs::create_dir_all(w.join(d).join("src")).unwrap();
+        std::fs::write(w.join(d).join("tauri.conf.json"), "{\"productName\":\"demo\",\"build\":{\"n\":18446744073709551615},\"plugins\":{\"shell\":{\"open\":true}}}").unwrap();
+    }
+    std::fs::create_dir_all(w.join("conf")).unwrap();
+    std::fs::write(w.join("src-tauri/src/lib.rs"), "#[tauri::command]\npub fn from_default_project(a: i32) -> i32 { a }\n").unwrap();
+    std::fs::write(w.join("alt-proj/src/lib.rs"), "#[tauri::command]\npub fn from_alt_project(a: i32) -> i32 { a }\n").unwrap();
+    std::fs::write(w.join("custom.json"), "{\"project_path\":\"./old\",\"mine\":true}").unwrap();
+    let project = c.project.as_deref().map(project_path_of).unwrap_or(P_DEFAULT);
+    let generated = if c.generated { "./out-init" } else { "./src/generated" };
+    let validation = c.validation.clone().unwrap_or("none".into());
+    // where the configuration goes
+    let (conf_rel, tauri_style): (String, bool) = match c.out.as_str() {
+        "custom-new" => ("conf/new.json".into(), false),
+        "custom-existing" | "custom-existing-force" => ("custom.json".into(), false),
+        "explicit-tauri" => ("alt-proj/tauri.conf.json".into(), true),
+        _ => (format!("{}/tauri.conf.json", project.trim_start_matches("./")), true),
+    };
+    let invalid: Option<String> = if project == "./missing-dir" {
+        Some("project path does not exist".into())
+    } else if !matches!(validation.as_str(), "zod" | "none") {
+        Some(format!("validation library {:?}", validation))
+    } else if c.out == "custom-existing" {
+        Some("configuration file exists and --force not given".into())
+    } else {
+        None
+    };
+    let mk = |class: &str, detail: String| {
+        Violation::new("C19", class, format!("init {:?}: {}", init_args(c), detail), json!({"kind":"init","case":c}))
+            .field("part", "init")
+            .field("plugins", "-")
+            .field("source", format!("init:{}", c.out))
+            .field("invalid_in_file", invalid.clone().map(|_| match (project == "./missing-dir", !matches!(validation.as_str(), "zod" | "none")) { (true, _) => "project", (_, true) => "validation", _ => "exists" }.to_string()).unwrap_or("-".into()))
+            .field("flags", format!("p={:?} g={} v={:?}", c.project, c.generated, c.validation))
+            .rank(init_args(c).len() as u64)
+    };
+    let mut vs = vec![];
+    let before = run::snapshot_tree(&sb.root);
+    let r = run_cli_in(&w, init_args(c));
+    let after = run::snapshot_tree(&sb.root);
+    if let Some(why) = invalid.clone() {
+        if r.success() {
+            vs.push(mk("invalid-setting-accepted", format!("{} but init exited 0", why)));
+        }
+        if before != after {
+            let changed: Vec<&String> = after.keys().chain(before.keys()).filter(|k| before.get(*k) != after.get(*k)).collect::<BTreeSet<_>>().into_iter().collect();
+            vs.push(mk("written-before-rejecting", format!("{}: init failed ({}) yet changed {:?}", why, r.status_string(), changed)));
+        }
+        return (vs, format!("init-invalid:{}", r.status_string()));
+    }
+    if !r.success() {
+        vs.push(mk("valid-settings-rejected", format!("exit {} stderr {}", r.status_string(), r.stderr.trim())));
+        return (vs, format!("init-rejected:{}", r.status_string()));
+    }
+    // only the configuration file and the output directory may differ
+    let out_prefix = format!("outer/w/{}", generated.trim_start_matches("./"));
+    let conf_key = format!("outer/w/{}", conf_rel);
+    let stray: Vec<&String> = after
+        .keys()
+        .chain(before.keys())
+        .filter(|k| before.get(*k) != after.get(*k))
+        .filter(|k| **k != conf_key && !k.starts_with(&format!("{}/", out_prefix)) && !format!("{}/", out_prefix).starts_with(k.as_str()))
+        .collect::<BTreeSet<_>>()
+        .into_iter()
+        .collect();
+    if !stray.is_empty() {
+        vs.push(mk("init-touched-other-files", format!("besides {} and {}: {:?}", conf_rel, generated, stray)));
+    }
+    // what was written reads back as what was asked for, and the rest of the document survives
+    let conf_path = w.join(&conf_rel);
+    // (read as JSON: the library's readers validate the project path against the current directory)
+    let doc_back: Option<Value> = std::fs::read_to_string(&conf_path).ok().and_then(|t| serde_json::from_str(&t).ok());
+    let section: Option<Value> = doc_back.as_ref().map(|d| if tauri_style { d["plugins"]["typegen"].clone() } else { d.clone() });
+    match section {
+        Some(sec) if sec.is_object() => {
+            let key = |camel: &str, snake: &str| sec.get(if tauri_style { camel } else { snake }).cloned().unwrap_or(Value::Null);
+            let got = (key("projectPath", "project_path"), key("outputPath", "output_path"), key("validationLibrary", "validation_library"), key("visualizeDeps", "visualize_deps"));
+            let want = (json!(project), json!(generated), json!(validation), json!(c.visualize));
+            if got != want {
+                vs.push(mk("settings-roundtrip", format!("asked for {:?} but {} holds {:?}", want, conf_rel, got)));
+            }
+        }
+        _ => vs.push(mk("settings-roundtrip", format!("{} holds no settings object after init", conf_rel))),
+    }
+    if tauri_style {
+        let doc: Value = std::fs::read_to_string(&conf_path).ok().and_then(|t| serde_json::from_str(&t).ok()).unwrap_or(Value::Null);
+        let want = json!({"productName":"demo","build":{"n":18446744073709551615u64},"plugins":{"shell":{"open":true}}});
+        if without_typegen(&doc) != want {
+            vs.push(mk("other-keys-changed", format!("document minus plugins.typegen is now {}", without_typegen(&doc))));
+        }
+    }
+    // the initial generation used the same settings
+    let outs = find_outputs(&sb.root);
+    let want_cmd = if project == P_ALT { "from_alt_project" } else { "from_default_project" };
+    match outs.get(&out_prefix) {
+        None => vs.push(mk("output-path-precedence", format!("expected the initial generation in {} but found output in {:?}", generated, outs.keys().collect::<Vec<_>>()))),
+        Some(cmds) => {
+            if !cmds.contains(want_cmd) {
+                vs.push(mk("project-path-precedence", format!("expected the project with {} to be analysed", want_cmd)));
+            }
+            if !cmds.contains(&format!("Generator: {}", validation)) {
+                vs.push(mk("validation-precedence", format!("expected Generator: {} in the header", validation)));
+            }
+        }
+    }
+    (vs, format!("init-ok:{}:{}:{}", c.out, generated, validation))
+}
+
 pub fn replay(case: &Value) -> Vec<Violation> {
+    if case["kind"] == "init" {
+        return serde_json::from_value::<InitCase>(case["case"].clone()).map(|c| eval_init(&c).0).unwrap_or_default();
+    }
     if case["kind"] == "roundtrip" {
         return roundtrip_case(case["doc"].as_str().unwrap_or("{}"), case["settings"].as_u64().unwrap_or(0) as usize);
     }
@@ -538,6 +693,33 @@ pub fn run(tier: Tier) -> CheckResult {
             }
         }
     }
+    // ---- part C
+    let mut icases: Vec<InitCase> = vec![];
+    for project in [None, Some("alt"), Some("missing")] {
+        for generated in [false, true] {
+            for validation in [None, Some("zod"), Some("none"), Some("yup")] {
+                for out in ["default", "custom-new", "custom-existing", "custom-existing-force", "explicit-tauri"] {
+                    for visualize in [false, true] {
+                        if visualize && !(generated && validation == Some("zod")) {
+                            continue;
+                        }
+                        icases.push(InitCase { project: project.map(|s| s.to_string()), generated, validation: validation.map(|s| s.to_string()), out: out.into(), visualize });
+                    }
+                }
+            }
+        }
+    }
+    let ires: Vec<Option<(Vec<Violation>, String)>> = icases.par_iter().map(|c| if deadline.passed() { None } else { Some(eval_init(c)) }).collect();
+    for r in ires {
+        match r {
+            None => exhaustive = false,
+            Some((v, o)) => {
+                runs += 1;
+                outcomes.insert(o);
+                all_v.extend(v);
+            }
+        }
+    }
     all_v.sort_by_key(|v| (v.rank, v.key()));
     let mut seen = BTreeSet::new();
     for v in all_v {
@@ -554,12 +736,13 @@ pub fn run(tier: Tier) -> CheckResult {
     res.coverage.set("roundtrip_documents", docs.len() as u64);
     res.coverage.set("roundtrip_cases", work.len() as u64);
     res.coverage.set("precedence_cases", pcases.len() as u64);
+    res.coverage.set("init_cases", icases.len() as u64);
     res.coverage.set("precedence_runs", runs);
     res.coverage.set("distinct_nontrivial", (docs.len() + pcases.iter().filter(|c| c.flags != 0 || c.source != Source::NoFile).count()) as u64);
     res.coverage.set("distinct_outcomes", outcomes.len() as u64);
     res.coverage.set("exhaustive", exhaustive);
     res.coverage.set("samples", json!([docs[docs.len() / 3], docs[docs.len() - 2], pcases[pcases.len() / 2]]));
-    res.coverage.set("rule", "Part A (in process): JSON documents with 0..2 (quick) / 0..3 (thorough) extra top-level members whose values range over the i64/u64 extremes, decimals, exponents, -0.0, escaped and non-ASCII strings, nested arrays/objects (also as one-level objects), crossed with seven shapes of the plugins section (absent, empty, other plugins, existing typegen entry, typegen entry with unknown keys, null entries, typegen entry carrying every optional setting) at varying key positions, crossed with three settings objects; save_to_tauri_config then: document minus plugins.typegen is value-equal to the original, and from_tauri_config returns the persisted settings. Part B (real binary): for each configuration source (none, the discovered tauri.conf.json locations, --config file) every single-field file (absent / valid values / invalid value) x all 32 flag subsets, plus multi-field files x 11 flag subsets, plus value flags spelled with the built-in default values against files that say otherwise; effective setting = first-defined(flag, file, default), observed through which directory receives output, which project's command is wrapped, the Generator header line, verbose output, regeneration over a matching cache; invalid effective library / missing project path => non-zero exit and an unchanged sandbox tree.");
+    res.coverage.set("rule", "Part A (in process): JSON documents with 0..2 (quick) / 0..3 (thorough) extra top-level members whose values range over the i64/u64 extremes, decimals, exponents, -0.0, escaped and non-ASCII strings, nested arrays/objects (also as one-level objects), crossed with seven shapes of the plugins section (absent, empty, other plugins, existing typegen entry, typegen entry with unknown keys, null entries, typegen entry carrying every optional setting) at varying key positions, crossed with three settings objects; save_to_tauri_config then: document minus plugins.typegen is value-equal to the original, and from_tauri_config returns the persisted settings. Part B (real binary): for each configuration source (none, the discovered tauri.conf.json locations, --config file) every single-field file (absent / valid values / invalid value) x all 32 flag subsets, plus multi-field files x 11 flag subsets, plus value flags spelled with the built-in default values against files that say otherwise; effective setting = first-defined(flag, file, default), observed through which directory receives output, which project's command is wrapped, the Generator header line, verbose output, regeneration over a matching cache; invalid effective library / missing project path => non-zero exit and an unchanged sandbox tree. Part C (real binary, `init`): -p {default, other, missing} x -g given or not x -v {absent, zod, none, unsupported} x -o {default tauri.conf.json in the project, new standalone file, existing standalone file without / with --force, explicit tauri.conf.json elsewhere}; an unsupported library, a missing project path or an existing standalone file without --force => non-zero exit and an unchanged sandbox tree; otherwise exit 0, only the configuration file and the output directory change, the file reads back as the settings given, every other key of a tauri.conf.json survives, and the initial generation used the same settings.");
     res.assumptions = vec!["integers outside the i64/u64 range are not part of the document alphabet (serde_json reads them as floats)".into()];
     res
 }
